@@ -23,7 +23,7 @@ def flag_vars(cfg: CFG) -> Set[str]:
     # locals (and parameters) that are tested as a bare name somewhere, or copied into such a name
     out = set()
     for n in cfg.nodes:
-        if n.kind == 'branch' and isinstance(n.meta['test'], ast.Name):
+        if n.kind in ('branch', 'assume') and isinstance(n.meta['test'], ast.Name):
             out.add(n.meta['test'].id)
     changed = True
     while changed:
@@ -81,6 +81,33 @@ def _none_test(t: ast.AST, cfg: Optional[CFG] = None) -> Optional[Tuple[str, boo
                 return a.id, pos, b.id
             if a.id in ss and b.id not in ss:
                 return b.id, pos, a.id
+    # a named constant (enum member, class constant: `outcome is _Attempt.RETRY`, `role == 'owner'`) identifies a value the
+    # same way a private sentinel does: a name holding one of them is not any of the others
+    if cfg is not None and isinstance(t, ast.Compare) and len(t.ops) == 1 and isinstance(t.ops[0], (ast.Is, ast.IsNot, ast.Eq, ast.NotEq)):
+        a, b = t.left, t.comparators[0]
+        pos = isinstance(t.ops[0], (ast.Is, ast.Eq))
+        for x, y in ((a, b), (b, a)):
+            if isinstance(x, ast.Name):
+                k = const_key(y)
+                if k is not None and (k.startswith('K:') or isinstance(t.ops[0], (ast.Eq, ast.NotEq))):
+                    return x.id, pos, k
+    return None
+
+
+def const_key(v: Optional[ast.AST]) -> Optional[str]:
+    """Key of a named constant (`Cls.MEMBER`, upper-case last component: 'K:Cls.MEMBER') or of a truthy str / int literal
+    ('L:<repr>'); None for anything else."""
+    if isinstance(v, ast.Attribute):
+        parts = []
+        e = v
+        while isinstance(e, ast.Attribute):
+            parts.append(e.attr)
+            e = e.value
+        if isinstance(e, ast.Name) and e.id not in ('self', 'cls') and parts[0].isupper() and not parts[0].startswith('__'):
+            return 'K:' + '.'.join([e.id] + parts[::-1])
+        return None
+    if isinstance(v, ast.Constant) and isinstance(v.value, (str, int)) and not isinstance(v.value, bool) and v.value:
+        return 'L:' + repr(v.value)
     return None
 
 
@@ -95,7 +122,7 @@ def sentinels(cfg: CFG) -> Set[str]:
     cfg.__dict__['_sentinels'] = out
     cand: Set[str] = set()
     for n in cfg.nodes:
-        for t in ([n.meta['test']] if n.kind == 'branch' else [n.meta.get('value')] if n.kind == 'store_name' else []):
+        for t in ([n.meta['test']] if n.kind in ('branch', 'assume') else [n.meta.get('value')] if n.kind == 'store_name' else []):
             if t is None:
                 continue
             for x in ast.walk(t):
@@ -108,6 +135,8 @@ def sentinels(cfg: CFG) -> Set[str]:
         v = _single_value(cfg, nm)
         if isinstance(v, ast.Call) and isinstance(v.func, ast.Name) and v.func.id == 'object' and not v.args and not v.keywords:
             out.add(nm)
+        elif v is not None and (const_key(v) or '').startswith('K:'):
+            out.add(nm)         # a name for an enum member / class constant: as good as a private object
     return out
 
 
@@ -178,7 +207,7 @@ def nullable_vars(cfg: CFG) -> Set[str]:
             if nt:
                 out.add(nt[0])
     for n in cfg.nodes:
-        if n.kind == 'branch':
+        if n.kind in ('branch', 'assume'):
             scan_test(n.meta['test'])
         elif n.kind == 'store_name' and n.meta.get('value') is not None:
             scan_test(n.meta['value'])
@@ -278,7 +307,7 @@ State = Tuple[int, Env, int]
 
 def _event_recv(cfg: CFG, node: Node, attrs) -> Optional[Tuple[str, str]]:
     """(receiver path, method) if node is / tests `<recv>.<method>()` for a tracked event."""
-    a = node.meta.get('test') if node.kind == 'branch' else node.ast
+    a = node.meta.get('test') if node.kind in ('branch', 'assume') else node.ast
     if isinstance(a, ast.Call) and isinstance(a.func, ast.Attribute) and not a.args:
         rp = cfg.res.path(a.func.value)
         if rp in attrs:
@@ -425,9 +454,13 @@ def _value_token(cfg: CFG, env: Env, node: Node, v: Optional[ast.AST], flags: Se
     if isinstance(v, ast.Constant):
         if v.value is None:
             return ('none',)
+        if const_key(v) is not None:
+            return ('none', const_key(v))       # a truthy literal that equality tests can tell apart from other literals
         if isinstance(v.value, (bool, int, float, str, bytes)):
             return ('c', bool(v.value))
         return fresh
+    if const_key(v) is not None:
+        return ('none', const_key(v))
     if isinstance(v, ast.Name):
         if v.id in flags or v.id in nulls:
             return _tok_of(cfg, env, v.id) or fresh
@@ -548,7 +581,7 @@ def _step(cfg: CFG, flags: Set[str], node: Node, env: Env, e: Edge) -> Optional[
             rm = _event_recv(cfg, node, ev)
             if rm and rm[1] in ('set', 'clear'):
                 env = _env_set(env, '@' + rm[0], rm[1] == 'set')
-        if node.kind == 'branch' and e.label in ('true', 'false'):
+        if node.kind in ('branch', 'assume') and e.label in ('true', 'false'):
             rm = _event_recv(cfg, node, ev)
             if rm and rm[1] == 'is_set':
                 val = _env_get(env, '@' + rm[0])
@@ -573,7 +606,7 @@ def _step(cfg: CFG, flags: Set[str], node: Node, env: Env, e: Edge) -> Optional[
                         return None
     # locals: a value tested twice without being re-assigned gives the same answer;
     # copies (`a = b`) and negations (`a = not b`) share the token of their source
-    if node.kind == 'branch' and e.label in ('true', 'false'):
+    if node.kind in ('branch', 'assume') and e.label in ('true', 'false'):
         t = node.meta['test']
         taken = (e.label == 'true')
         sites = _atom_sites(cfg)
